@@ -338,7 +338,7 @@ def gen_scenarios(seed, n, steps, profile, role="both", snap=True):
     return load_scenarios(out)
 
 
-def correspond_sendflow(rep, tier, seed, profiles=("flow", "bp", "mixed", "bp", "reset", "limits")):
+def correspond_sendflow(rep, tier, seed, profiles=("flow", "bp", "mixed", "starve", "bp", "reset", "limits")):
     per = 50 if tier == "quick" else 1500
     steps = 100 if tier == "quick" else 140
     all_cases, all_scs, label_hist = [], [], {}
@@ -359,7 +359,7 @@ def correspond_sendflow(rep, tier, seed, profiles=("flow", "bp", "mixed", "bp", 
     rep.correspondences.append({
         "name": "sendflow-lockstep", "cases": len(all_cases), "nontrivial": nontrivial, "disagreements": len(failing),
         "distribution": {"labels": label_hist, "profiles": list(profiles)},
-        "rule": "random connection scenarios (profiles flow/mixed/reset/limits, client and server, scripted peer); every hooked "
+        "rule": "random connection scenarios (profiles listed under distribution, client and server, scripted peer); every hooked "
                 "entry into the send-flow mechanism becomes a label; the Coq model is stepped through the labels and compared "
                 "with the observed pre-state at each label, the observed outputs and the final snapshot; non-trivial = the "
                 "endpoint emitted at least one non-empty DATA frame"})
@@ -410,11 +410,27 @@ def capacity_usable_oracle(rep, scs):
                 bad = {"step": st["i"], "why": "assigned + unassigned != connection window", "sum_assigned": tot,
                        "conn_available": c["send_flow_available"], "conn_window": c["send_flow_window"]}
                 break
+            by_id = {s["id"]: s for s in sn["streams"]}
             for s in sn["streams"]:
                 if s["send_available"] < 0 or s["send_available"] > max(0, s["send_window"]):
                     bad = {"step": st["i"], "why": "stream assigned capacity outside [0, max(0, window)]", "stream": s["id"],
                            "available": s["send_available"], "window": s["send_window"]}
                     break
+                # "capacity a stream does not use returns to the connection": between operations no stream holds
+                # more than it currently asks for (requested_send_capacity covers buffered data and the reservation)
+                if s["send_available"] > s.get("requested_send_capacity", s["send_available"]):
+                    bad = {"step": st["i"], "why": "a stream holds more assigned capacity than it requests (unused capacity not returned)",
+                           "stream": s["id"], "available": s["send_available"], "requested": s["requested_send_capacity"], "state": s.get("state")}
+                    break
+            if not bad and c["send_flow_available"] > 0:
+                # "... and reaches other waiting streams": free connection capacity while a queued waiter could take some
+                for sid in sn.get("queues", {}).get("pending_capacity", []):
+                    s = by_id.get(sid)
+                    if s and s.get("requested_send_capacity", 0) > s["send_available"] and s["send_window"] > s["send_available"]:
+                        bad = {"step": st["i"], "why": "connection capacity is free while a queued stream still waits for capacity",
+                               "stream": sid, "available": s["send_available"], "requested": s["requested_send_capacity"],
+                               "window": s["send_window"], "conn_available": c["send_flow_available"]}
+                        break
             if bad:
                 break
         if bad:
